@@ -1,0 +1,51 @@
+//go:build verif
+// +build verif
+
+// Contracts for package db, checked by /verif/cmd/govc (comment-only file; see /verif/DESIGN.md).
+//
+// Abstract bucket model: bmap(b) is the ghost finite map key-bytes -> value-bytes of bucket b
+// (a Go map[string]string living in ghost state).  The interface contracts below are what every
+// txmgr / keystore proof assumes about a bucket; package ldb's implementation is checked against
+// them under property C11.
+package db
+
+//@ define bmap(b) = gmap("bmap", b)
+//@ define bhas(b, k) = has(gmap("bmap", b), strOf(k))
+//@ define bval(b, k) = gmap("bmap", b)[strOf(k)]
+//@ define bsame(b) = (forall s string :: has(gmap("bmap", b), s) == old(has(gmap("bmap", b), s)) && gmap("bmap", b)[s] == old(gmap("bmap", b)[s]))
+//@ define bsameExcept(b, k) = (forall s string :: s != strOf(k) ==> has(gmap("bmap", b), s) == old(has(gmap("bmap", b), s)) && gmap("bmap", b)[s] == old(gmap("bmap", b)[s]))
+
+//@ func Bucket.Get
+//@   props C01 C08 C09 C10 C11 C12 C18
+//@   requires recv != nil
+//@   ensures err != nil ==> result == nil
+//@   ensures err == nil && len(key) == 0 ==> result == nil
+//@   ensures err == nil && len(key) > 0 ==> (result != nil) == bhas(recv, key)
+//@   ensures result != nil ==> len(result) > 0 && strOf(result) == bval(recv, key)
+
+//@ func Bucket.Put
+//@   props C01 C08 C09 C10 C11 C12 C18
+//@   requires recv != nil
+//@   modifies bmap(recv)
+//@   ensures err == nil ==> len(key) > 0 && len(value) > 0
+//@   ensures err == nil ==> bhas(recv, key) && bval(recv, key) == strOf(value) && bsameExcept(recv, key)
+//@   ensures err != nil ==> bsame(recv)
+
+//@ func Bucket.Delete
+//@   props C01 C08 C09 C10 C11 C12 C18
+//@   requires recv != nil
+//@   modifies bmap(recv)
+//@   ensures err == nil && len(key) > 0 ==> !bhas(recv, key) && bsameExcept(recv, key)
+//@   ensures err != nil || len(key) == 0 ==> bsame(recv)
+
+//@ func BytesPrefix
+//@   props C11 C19
+//@   ensures result != nil && sameSlice(result.Start, prefix)
+//@   ensures (result.Limit == nil) == (forall j int :: 0 <= j && j < len(prefix) ==> prefix[j] == 0xff)
+//@   ensures result.Limit != nil ==> fresh(result.Limit) && 1 <= len(result.Limit) && len(result.Limit) <= len(prefix)
+//@   ensures result.Limit != nil ==> (forall j int :: 0 <= j && j < len(result.Limit)-1 ==> result.Limit[j] == prefix[j])
+//@   ensures result.Limit != nil ==> mathint(result.Limit[len(result.Limit)-1]) == mathint(prefix[len(result.Limit)-1]) + 1
+//@   ensures result.Limit != nil ==> (forall j int :: len(result.Limit) <= j && j < len(prefix) ==> prefix[j] == 0xff)
+//@   loop#1 invariant -1 <= i && i < len(prefix) && limit == nil
+//@   loop#1 invariant forall j int :: i < j && j < len(prefix) ==> prefix[j] == 0xff
+//@   loop#1 decreases i + 1
